@@ -223,6 +223,21 @@ func init() {
 	for _, n := range []string{"context.WithCancel", "context.WithTimeout", "context.WithDeadline", "context.Background", "context.TODO", "context.WithValue", "context.WithCancelCause", "context.WithoutCancel"} {
 		S[n] = ctxCtor
 	}
+	// time.Duration accessors. Seconds() is float64(sec)+float64(nsec)/1e9 in the library; it is modelled
+	// as the exact real d/1e9 (floating point treated as real arithmetic, assumption A6): the zero test
+	// d.Seconds()==0 <=> d==0 and the truncation uint32(d.Seconds()) == d div 1e9 agree with the float
+	// result for every duration below 2^53 ns (104 days).
+	S["(time.Duration).Seconds"] = func(fr *Frame, c *ssa.CallCommon, a []*Val, av []ssa.Value, pos token.Pos) *Val {
+		return fr.mkVal(sx("/", sx("to_real", a[0].T), "1000000000.0"), resultType(c))
+	}
+	for n, k := range map[string]string{"Milliseconds": "1000000", "Microseconds": "1000", "Nanoseconds": "1"} {
+		k := k
+		S["(time.Duration)."+n] = func(fr *Frame, c *ssa.CallCommon, a []*Val, av []ssa.Value, pos token.Pos) *Val {
+			// Go integer division truncates toward zero
+			q := ite(sx(">=", a[0].T, "0"), sx("div", a[0].T, Term(k)), sx("-", sx("div", sx("-", a[0].T), Term(k))))
+			return fr.mkVal(fr.vc.define("dur", SInt, q), resultType(c))
+		}
+	}
 	S["time.Now"] = func(fr *Frame, c *ssa.CallCommon, a []*Val, av []ssa.Value, pos token.Pos) *Val {
 		return fr.freshVal("now", resultType(c))
 	}
